@@ -141,10 +141,23 @@ class _Client(object):
 fake_boto3 = types.SimpleNamespace(resource=lambda *a, **k: _Resource(), client=lambda *a, **k: _Client())
 
 
-def install():
+class _FakeUuidModule(object):
+    """uuid1().hex values in an order unrelated to creation time (real uuid1 hex starts with time_low, which wraps
+    every ~7 minutes: S3's lexicographic listing is not chronological)."""
+    def __init__(self, seed):
+        import random
+        self.rng = random.Random(seed)
+
+    def uuid1(self):
+        return types.SimpleNamespace(hex="%032x" % self.rng.getrandbits(128))
+
+
+def install(random_ids=None):
     """Patch the real modules (module attributes only; no source change)."""
     import playback.tape_cassettes.s3.s3_basic_facade as facade
     import playback.tape_cassettes.s3.s3_tape_cassette as s3c
     facade.boto3 = fake_boto3
     s3c.datetime = FakeDateTime
+    if random_ids is not None:
+        s3c.uuid = _FakeUuidModule(random_ids)
     return s3c
